@@ -65,6 +65,8 @@ def main():
             key["Harness"], key["API"], json.dumps(key["Pattern"]), key["L"], key.get("Alpha") or "full", key.get("Mode", 0),
             e0["msg"], hexw, json.dumps(e0.get("snaps")), cls)
         ent = {"key": key, "class": cls, "what": what, "witness": e0["model"], "snaps": e0.get("snaps"), "failing_paths": len(pcs), "region": region}
+        if e0.get("post"):
+            ent["post"] = True
         if k in existing:
             existing[k].update(ent)
         else:
